@@ -64,6 +64,12 @@ Proof.
   unfold pad. rewrite Hp. destruct Hd as [-> | ->]; reflexivity.
 Qed.
 
+(* the unsafe constructs found in the workspace's sources are exactly the inventoried ones: each is hooked
+   (indexing, write_at) or modelled (C13); a new unchecked access without a hook breaks this obligation, and the
+   property is then no longer shown for that site *)
+Theorem C14_no_uninventoried_unsafe_site : inv_eqb unsafe_inventory expected_unsafe_inventory = true.
+Proof. exact unsafe_inventory_ok. Qed.
+
 Example C14_example : row_len 9 2 = (10 * 8 + 9 * 2 + 1)%nat /\ size_fixed 9 2 30 3 = (3 * 99 + 30)%nat.
 Proof. vm_compute. split; reflexivity. Qed.
 
@@ -76,3 +82,4 @@ Print Assumptions C14_rows_tile_the_file.
 Print Assumptions C14_rows_never_overlap.
 Print Assumptions C14_original_size_only_for_one_byte_delimiters.
 Print Assumptions C14_number_width.
+Print Assumptions C14_no_uninventoried_unsafe_site.
